@@ -13,7 +13,9 @@ from .. import rt
 PROGRAMS = [
     # sensitive to all three options (if_style, expr_wrapper via several statements, unparser via
     # spacing); the second uses for+break (shared module-level iterator-wrapper AST) and a class
-    "x = 1\nif x:\n    y = 2\nelse:\n    y = 3\nprint(x, y)\n",
+    # ... and three parameters captured by an inner function (process-level state: the order in
+    # which they are emitted must not depend on the hash seed)
+    "x = 1\nif x:\n    y = 2\nelse:\n    y = 3\nprint(x, y)\ndef mk(alpha, beta, gamma):\n    def g():\n        return alpha + beta + gamma\n    return g\n",
     "class K:\n    v = 1\nfor i in range(3):\n    if i == K.v:\n        break\n    print(i)\nelse:\n    print('e')\nwhile i < 2:\n    i += 1\n",
     "def f(a, b=2):\n    if a:\n        return a + b\n    return b\nimport math\nprint(f(0), f(1), math.floor(2.5))\n",
 ]
@@ -25,7 +27,7 @@ VALUES = {
 }
 DEFAULTS = {"unparser": "ast.unparse", "expr_wrapper": "chain_call", "if_style": "if_expr"}
 LEGAL = {"unparser": ["ast.unparse", "oneliner"], "expr_wrapper": ["chain_call", "list"], "if_style": ["if_expr", "short_circuit"]}
-_TMP = re.compile(r"__ol_[a-z]+_[a-z]{10}")
+_TMP = re.compile(r"__ol_[a-z_]+?_[a-z]{10}\b")
 
 
 def alpha(text):
